@@ -60,6 +60,12 @@ PROPERTIES = {
         "thorough": [{"match": "VerifH_c05_.*", "timeout": 2400}],
         "bounds": {}, "outside": [], "assumptions": [],
     },
+    "C14": {
+        "level": "model_checking",
+        "quick": [{"match": "VerifH_c14_.*", "timeout": 600, "shards": {"VerifH_c14_programs": 8}}],
+        "thorough": [{"match": "VerifH_c14_.*", "timeout": 3000, "shards": {"VerifH_c14_programs": 14}}],
+        "bounds": {}, "outside": [], "assumptions": [],
+    },
     "C15": {
         "level": "model_checking",
         "quick": [{"match": "VerifH_c15_.*", "timeout": 600, "shards": {"VerifH_c15_downconvert": 6},
